@@ -682,7 +682,9 @@ contract(
                 "well-named": _NAMED_G,
                 # every name of every master sits at a position of the processing order (glyph sets only gain the name being processed)
                 "covered": "all(all(any(orderedGlyphs[k] == n for k in range(len(orderedGlyphs))) for n in gs.keyset) for gs in glyphSets)",
-                "todo-unreported": "all(orderedGlyphs[b] not in modified for b in range(i, len(orderedGlyphs)))",
+                # a name that is already reported as modified has been dealt with in every master (the `continue` branch; stated this way rather than
+                # "names still to come are not reported", which makes that branch infeasible: the engine's vacuity probe then wants cvc5 to certify it)
+                "reported-are-done": "all(all(implies(m in gs.keyset, len(gs[m].components) == 0) for gs in glyphSets) for m in modified)",
                 "done": "all(all(implies(orderedGlyphs[a] in gs.keyset, len(gs[orderedGlyphs[a]].components) == 0) for gs in glyphSets) for a in range(i))",
             },
         )
@@ -800,7 +802,9 @@ contract(
                 "context": "self.context.glyphSets == glyphSets and self.context.instantiator == instantiator",
                 "well-named": _NAMED_G,
                 "covered": "all(all(any(orderedGlyphs[k] == n for k in range(len(orderedGlyphs))) for n in gs.keyset) for gs in glyphSets)",
-                "todo-unreported": "all(orderedGlyphs[b] not in modified for b in range(i, len(orderedGlyphs)))",
+                # a name that is already reported as modified has been dealt with in every master (the `continue` branch; stated this way rather than
+                # "names still to come are not reported", which makes that branch infeasible: the engine's vacuity probe then wants cvc5 to certify it)
+                "reported-are-done": "all(all(implies(m in gs.keyset, len(gs[m].components) == 0) for gs in glyphSets) for m in modified)",
                 "done": "all(all(implies(orderedGlyphs[a] in gs.keyset and orderedGlyphs[a] in self.only, len(gs[orderedGlyphs[a]].components) == 0) for gs in glyphSets) for a in range(i))",
                 "untouched": _ELSE_KEPT.format(H="HC0"),
             },
@@ -1003,3 +1007,216 @@ def _b_run_only(d):
 
 
 CONTRACTS["ufo2ft.preProcessor:BaseInterpolatablePreProcessor._run_interpolatable#decompose-only"].runtime = Runtime(_only_cases, _b_run_only)
+
+
+# =====================================================================================================
+# TTFInterpolatablePreProcessor.process: which steps run, in which order, on what
+# =====================================================================================================
+# Scope of this contract: a pre-processor WITHOUT custom filters and without the colour-layer default filter (preFilters / defaultFilters /
+# postFilters are lists of empty lists: `zip_longest(*lists)` yields nothing).  `_run(<one filter>)` is summarised: for the decompose filter it IS
+# `_run_interpolatable` (contract above); for the reverse / flatten filters it is an arbitrary edit of the glyph sets.  Every step leaves an event
+# in a specification-only log, so that the order of the steps and what they were handed can be stated.
+import itertools as _itertools  # noqa: E402
+
+from pyvc.api import record_init as _record_init  # noqa: E402
+
+_PPC = CLASSES["SXTTFPre"]
+_PPC.fields.update({"convertCubics": BOOL, "flattenComponents": BOOL, "_reverseDirection": BOOL, "_rememberCurveType": BOOL, "inplace": BOOL, "allQuadratic": BOOL, "_conversionErrors": List(REAL)})
+for _k in ("preFilters", "defaultFilters", "postFilters"):
+    _PPC.derived[_k] = lambda ex, st, self: Val(PYOBJ, None, [], True)
+_PPC.derived["heap_ncontours"] = _heap_map("SXGlyph", "ncontours", Ref("SXGlyph"), INT)
+_PPC.views["heap_ncontours"] = lambda o: _LiveMap(lambda g: len(g))
+
+
+class _It:
+    @staticmethod
+    def zip_longest(*a):
+        return list(_itertools.zip_longest(*a))
+
+
+_It.zip_longest.__module__ = "c09"
+_It.zip_longest.__qualname__ = "zip_longest"
+
+
+@trusted("c09.zip_longest", "itertools.zip_longest() of no iterables yields nothing (the only form in scope: no custom / colour-layer filters)")
+def _zip_longest(ex, st, args, kwargs, node):
+    if args:
+        raise Unsupported("zip_longest of a non-empty list of filter lists (custom filters are out of the scope of this contract)", node)
+    return Val(PYOBJ, None, [], True)
+
+
+class _Log(Val):
+    """the specification-only step log: symbolically a heap object (class SXCallLog); natively the same Python object carries what the
+    instrumented harness recorded (it is callable only so that the run-time clause environment keeps it)"""
+
+    def __call__(self):
+        return self
+
+    def reset(self):
+        self.events, self.only, self.f2q = [], set(), []
+
+
+cls("SXCallLog", fields={"events": List(STR), "only": Set(STR), "f2q": List(Ref("SXGlyphSet"))},
+    notes="specification-only log of the steps of process(): event names in order, the include set of the decompose filter, the glyph sets handed to cu2qu")
+LOG = _Log(Ref("SXCallLog"), z3.Const("c09_log", T.RefSort))
+LOG.reset()
+
+
+def _do_init(ex, st, self, args, kwargs, node):
+    if args or set(kwargs) != {"include"}:
+        raise Unsupported("DecomposeComponentsIFilter(...) arguments", node)
+    ex.write_field(st, self, "only", kwargs["include"], node)
+
+
+CLASSES["SXDOFilter"].methods["__init__"] = _do_init
+CLASSES["DecomposeComponentsIFilter"] = CLASSES["SXDOFilter"]  # `DecomposeComponentsIFilter(include=<names>)` in process() builds such an object
+cls("FlattenComponentsIFilter", dynamic=True, methods={"__init__": _record_init("include", "exclude", pre=False)})
+
+
+def _event(ex, st, name, node):
+    ev = ex.read_field(st, LOG, "events")
+    ex.write_field(st, LOG, "events", Val(List(STR), z3.Concat(lift(ev), z3.Unit(z3.StringVal(name)))), node)
+
+
+_RUN_I = "ufo2ft.preProcessor:BaseInterpolatablePreProcessor._run_interpolatable#decompose-only"
+_EDITED = [("SXGlyph", "components"), ("SXGlyph", "ncontours"), ("SXGlyphSet", "glyphs"), ("SXInstantiator", "source_layers"), ("SXInstantiator", "glyph_mutators")]
+
+
+def _run_one(ex, st, self, args, kwargs, node):
+    """SUMMARY of BaseInterpolatablePreProcessor._run(<one filter>) (a *args method: not expressible as a contract): a BaseIFilter goes to
+    _run_interpolatable (for the decompose filter: by its contract); the reverse / flatten filters edit the glyph sets arbitrarily."""
+    if len(args) != 1 or kwargs:
+        raise Unsupported("_run with several filters", node)
+    f = args[0]
+    kind = f.ty.cls if isinstance(f.ty, T.Ref) else None
+    if kind == "SXDOFilter":
+        _event(ex, st, "decompose", node)
+        ex.write_field(st, LOG, "only", ex.read_field(st, f, "only"), node)
+        return ex.call_contract(CONTRACTS[_RUN_I], [self, f], {}, st, node, implicit=1)
+    name = {"ReverseContourDirectionFilter": "reverse", "FlattenComponentsIFilter": "flatten"}.get(kind)
+    if name is None:
+        raise Unsupported("_run of this filter", node)
+    _event(ex, st, name, node)
+    for c, fld in _EDITED:
+        arr = ex.field_array(st, c, fld)
+        st.heap[(c, fld)] = z3.Const(fresh_name(f"H_{c}_{fld}"), arr.sort())
+    return Val(Set(STR), fresh(Set(STR), "modified"))
+
+
+_run_one.modifies = ["SXCallLog.events", "SXCallLog.only"] + [f"{c}.{f}" for c, f in _EDITED]
+_PPC.methods["_run"] = _run_one
+
+
+@trusted("fontTools.cu2qu.ufo.fonts_to_quadratic",
+         "fonts_to_quadratic(glyphSets, ...): converts the curves of same-named glyphs of all the glyph sets it is handed jointly; returns whether anything changed; "
+         "component lists, contour counts and the glyph sets' keys are kept (assumed library behaviour)")
+def _f2q(ex, st, args, kwargs, node):
+    _event(ex, st, "cu2qu", node)
+    ex.write_field(st, LOG, "f2q", args[0], node)
+    return Val(BOOL, fresh(BOOL, "f2q_modified"))
+
+
+_MIXED = "any(n in gs2.keyset and len(gs2[n]) > 0 and len(gs2[n].components) > 0 for gs2 in self.glyphSets)"
+_NEEDS_OLD = f"(old({_MIXED}) or old({_NM.format('n')}))"
+_DEC_OLD = f"old(any(any({_MIXED} or {_NM.format('n')} for n in gs.keyset) for gs in self.glyphSets))"
+_QUIET = "(not self.flattenComponents and (self.convertCubics or not self._reverseDirection))"  # no step after the decomposition edits components
+
+contract(
+    "ufo2ft.preProcessor:TTFInterpolatablePreProcessor.process",
+    props=["C09"],
+    params={"self": Ref("SXTTFPre")},
+    returns=List(Ref("SXGlyphSet")),
+    requires=_RUN_REQUIRES,
+    ensures={
+        "returns-the-glyph-sets": "result == self.glyphSets and self.glyphSets == old(self.glyphSets)",
+        # ORDER: 2x2 check + decomposition first (iff some glyph is mixed in ANY master or its 2x2 differs between masters), then the curve conversion
+        # (or, without it, the direction reversal), then flattening
+        **{
+            f"steps-in-order.{mode}": " and ".join(
+                f"implies(({'' if dec else 'not '}{_DEC_OLD}) and ({cond}) and ({'' if fl else 'not '}self.flattenComponents),"
+                f" c09_log.events == old(c09_log.events) + {(['decompose'] if dec else []) + ev + (['flatten'] if fl else [])!r})"
+                for dec in (True, False) for fl in (True, False)
+            )
+            for mode, cond, ev in (
+                ("cu2qu", "self.convertCubics", ["cu2qu"]),
+                ("reverse", "not self.convertCubics and self._reverseDirection", ["reverse"]),
+                ("neither", "not self.convertCubics and not self._reverseDirection", []),
+            )
+        },
+        # the decompose filter's include set: exactly the glyphs that are mixed in some master or nonmatching
+        "decompose-set": f"implies({_DEC_OLD}, all(all(iff(n in c09_log.only, {_NEEDS_OLD}) for n in old(gs.keyset)) for gs in self.glyphSets))",
+        # cu2qu gets ALL glyph sets in one call
+        "cu2qu-jointly": "implies(self.convertCubics, c09_log.f2q == self.glyphSets)",
+        # and, unless a later step edits components: such a glyph ends up without components in EVERY master
+        "decomposed-in-all-masters": f"implies({_QUIET}, all(all(implies({_NEEDS_OLD}, all(implies(n in gs.keyset, len(gs[n].components) == 0) for gs in self.glyphSets))"
+        " for n in old(gs1.keyset)) for gs1 in self.glyphSets))",
+        "in-sync": f"implies({_QUIET}, {_IN_SYNC})",
+    },
+    # stepping stones: what the set handed to the decompose filter is, in the vocabulary of the post-condition
+    hints={
+        "self.check_for_nonmatching_components(needs_decomposition)": [
+            f"all(all(iff(n in needs_decomposition, {_MIXED} or {_NM.format('n')}) for n in gs.keyset) for gs in self.glyphSets)",
+            "all(any(n in gs.keyset for gs in self.glyphSets) for n in needs_decomposition)",
+            f"iff(any(True for n in needs_decomposition), any(any({_MIXED} or {_NM.format('n')} for n in gs.keyset) for gs in self.glyphSets))",
+        ],
+    },
+    canaries={"always-decomposes": "len(c09_log.events) > len(old(c09_log.events)) and c09_log.events[len(old(c09_log.events))] == 'decompose'", "never-converts": "c09_log.f2q != self.glyphSets"},
+    globals={**c13._IHELPERS, "itertools": _Ref("c09.itertools", obj=_It), "c09_log": LOG},
+    modifies=["SXCallLog.events", "SXCallLog.only", "SXCallLog.f2q", "SXDOFilter.context", "SXDOFilter.only"] + c13._ICTX_MOD[1:] + [f"{c}.{f}" for c, f in _EDITED],
+)
+
+
+def _process_cases(rng, n):
+    out = []
+    for d in c13rt.family_cases(rng, n, curves=("box", "cubic"), skip=False):
+        d["convertCubics"] = rng.random() < 0.6
+        d["reverseDirection"] = rng.random() < 0.6
+        d["flattenComponents"] = rng.random() < 0.3
+        # in half of the families one master gets a different xx / yy in one component of one composite: nonmatching although not mixed
+        d["bend"] = rng.random() < 0.5
+        out.append(d)
+    return out
+
+
+def _b_process(d):
+    import fontTools.cu2qu.ufo as cu2qu_ufo
+
+    if d.get("bend"):
+        for name, g in d["masters"][-1]["glyphs"].items():
+            if g.get("components"):
+                g["components"][0][1][0] += 0.25
+                break
+    from ufo2ft.instantiator import Instantiator
+    from ufo2ft.preProcessor import TTFInterpolatablePreProcessor
+
+    ufos, layer_names, ds = c13rt.build_family(d)
+    inst = Instantiator.from_designspace(ds, round_geometry=False, do_info=False, do_kerning=False) if d.get("instantiator") else None
+    pp = TTFInterpolatablePreProcessor(ufos, layerNames=layer_names, instantiator=inst, convertCubics=d["convertCubics"], reverseDirection=d["reverseDirection"],
+                                       flattenComponents=d["flattenComponents"])
+    LOG.reset()
+    real_run = pp._run
+
+    def run(*filters):
+        kind = type(filters[0]).__name__
+        LOG.events.append({"DecomposeComponentsIFilter": "decompose", "ReverseContourDirectionFilter": "reverse", "FlattenComponentsIFilter": "flatten"}.get(kind, kind))
+        if kind == "DecomposeComponentsIFilter":
+            import ufoLib2
+
+            LOG.only = {nm for gs in pp.glyphSets for nm in gs if filters[0].include(ufoLib2.objects.Glyph(nm))}
+        return real_run(*filters)
+
+    pp._run = run
+    if not getattr(cu2qu_ufo.fonts_to_quadratic, "_c09_recorder", False):
+        real_f2q = cu2qu_ufo.fonts_to_quadratic
+
+        def f2q(glyphsets, *a, **k):
+            LOG.events.append("cu2qu")
+            LOG.f2q = list(glyphsets)
+            return real_f2q(glyphsets, *a, **k)
+
+        f2q._c09_recorder = True
+        cu2qu_ufo.fonts_to_quadratic = f2q
+    return {"self": pp}
+
+
+CONTRACTS["ufo2ft.preProcessor:TTFInterpolatablePreProcessor.process"].runtime = Runtime(_process_cases, _b_process)
